@@ -30,7 +30,7 @@ type c16Obs struct {
 	bad      string
 }
 
-func c16Run(opts []string, args []string, version bool, spec string, argv []string) c16Obs {
+func c16Run(opts []string, args []string, version bool, spec string, argv []string, twice bool) c16Obs {
 	os.Setenv("VQ_E", "ev")
 	app := cli.App("app", "")
 	os.Unsetenv("VQ_E")
@@ -69,12 +69,18 @@ func c16Run(opts []string, args []string, version bool, spec string, argv []stri
 		if a == "single" {
 			p := app.String(cli.StringArg{Name: name, SetByUser: s})
 			readers = append(readers, func() string { return fmt.Sprintf("%s=%q", name, *p) })
+		} else if a == "envsingle" {
+			os.Setenv("VQ_E2", "fromenv")
+			p := app.String(cli.StringArg{Name: name, EnvVar: "VQ_E2", SetByUser: s})
+			os.Unsetenv("VQ_E2")
+			readers = append(readers, func() string { return fmt.Sprintf("%s=%q", name, *p) })
 		} else {
 			p := app.Strings(cli.StringsArg{Name: name, SetByUser: s})
 			readers = append(readers, func() string { return fmt.Sprintf("%s=%q", name, *p) })
 		}
 	}
 	var obs c16Obs
+	prefix := ""
 	ran := 0
 	app.Action = func() {
 		ran++
@@ -89,6 +95,14 @@ func c16Run(opts []string, args []string, version bool, spec string, argv []stri
 	}
 	sharedBuf.Reset()
 	o := runDirect(&sharedBuf, func() error { return app.Run(append([]string{"app"}, argv...)) })
+	if twice && !o.Panicked && len(o.Exits) == 0 {
+		// the same command line once more on the same application instance
+		first := fmt.Sprintf("first run: accepted=%v vals=%s | ", o.Returned && o.Err == nil && ran == 1, obs.vals)
+		ran = 0
+		sharedBuf.Reset()
+		o = runDirect(&sharedBuf, func() error { return app.Run(append([]string{"app"}, argv...)) })
+		prefix = first
+	}
 	obs.stderr = sharedBuf.String()
 	if o.Panicked || len(o.Exits) > 0 || ran > 1 {
 		obs.bad = fmt.Sprintf("panic=%v exits=%v ran=%d", safeSprint(o.PanicVal), o.Exits, ran)
@@ -97,6 +111,7 @@ func c16Run(opts []string, args []string, version bool, spec string, argv []stri
 		obs.err = o.Err.Error()
 	}
 	obs.accepted = o.Returned && o.Err == nil && ran == 1
+	obs.vals = prefix + obs.vals
 	return obs
 }
 
@@ -157,6 +172,14 @@ func runImplicit(c *Ctx) {
 				s = append(s, map[bool]string{false: "single", true: "multi"}[mask&(1<<uint(i)) != 0])
 			}
 			argSets = append(argSets, s)
+			// the same with one argument backed by a set environment variable
+			for i := 0; i < n; i++ {
+				if s[i] == "single" {
+					e := append([]string{}, s...)
+					e[i] = "envsingle"
+					argSets = append(argSets, e)
+				}
+			}
 		}
 	}
 	ndecl := 0
@@ -178,7 +201,7 @@ func runImplicit(c *Ctx) {
 			}
 		}
 	}
-	c.Note("declarations", fmt.Sprintf("%d declaration sets: every subset of size <= 3 of {flag f, valued o, multi-valued m, valued e backed by a set environment variable} x every sequence of 0-3 arguments each single- or multi-valued x {no version flag, Version(\"v version\")}; argvs: all of length <= %d over the set's own alphabet (x, --, -z and the spellings of its options)", ndecl, alen))
+	c.Note("declarations", fmt.Sprintf("%d declaration sets: every subset of size <= 3 of {flag f, valued o, multi-valued m, valued e backed by a set environment variable} x every sequence of 0-3 arguments each single- or multi-valued, optionally one of them backed by a set environment variable, x {no version flag, Version(\"v version\")}; argvs: all of length <= %d over the set's own alphabet (x, --, -z and the spellings of its options); command lines of even length are run twice on the same instance", ndecl, alen))
 }
 
 func replayImplicit(c *Ctx, cs Case) {
@@ -188,7 +211,8 @@ func replayImplicit(c *Ctx, cs Case) {
 
 func implicitCase(c *Ctx, opts, args []string, version bool, argv []string) {
 	explicit := c16Explicit(opts, args, version)
-	a := c16Run(opts, args, version, "", argv)
+	twice := len(argv)%2 == 0 // every other command line is run twice on the same instance
+	a := c16Run(opts, args, version, "", argv, twice)
 	c.Count("evaluations", 1)
 	if len(opts)+len(args) >= 2 {
 		c.Count("nontrivial", 1)
@@ -202,7 +226,7 @@ func implicitCase(c *Ctx, opts, args []string, version bool, argv []string) {
 		}
 		return
 	}
-	b := c16Run(opts, args, version, explicit, argv)
+	b := c16Run(opts, args, version, explicit, argv, twice)
 	if a.bad != "" || b.bad != "" {
 		c.Violation("C16", key, cs(), "Run returns", a.bad+" / "+b.bad)
 		return
